@@ -132,6 +132,7 @@ fn spaces(id: &str, tier: Tier) -> Vec<Box<dyn Space>> {
             v.push(Box::new(ms_b(if t { 4 } else { 3 }, true)));
             v.push(Box::new(ms_c()));
             v.push(Box::new(ms_e(if t { 2 } else { 1 })));
+            v.push(Box::new(ms_e_runs(if t { 2 } else { 1 })));
             v.push(Box::new(scale_family(true)));
             v.push(Box::new(unicode_family()));
             if t {
@@ -147,6 +148,17 @@ fn spaces(id: &str, tier: Tier) -> Vec<Box<dyn Space>> {
             v.push(Box::new(scale_family(false)));
             v.push(Box::new(relation_family()));
             v.push(Box::new(unicode_family()));
+            // obfuscated ranges that are equal only modulo 2^32: distinct ranges, no inline group
+            {
+                let big = 1u64 << 32;
+                let mut alpha = Vec::new();
+                for r in [(1u64, 1u64), (big + 1, big + 1), (1, big + 1), (big + 1, 2 * big + 1), (2, 2)] {
+                    for n in ["p", "q"] {
+                        alpha.push(method(Some(r), None, n, "", Orig::None, "m"));
+                    }
+                }
+                v.push(Box::new(SeqSpace::new("by-params: ranges congruent modulo 2^32", vec![class("p.A", "a")], alpha, 3)));
+            }
             if t {
                 v.push(Box::new(ms_b(6, false)));
             }
@@ -159,6 +171,7 @@ fn spaces(id: &str, tier: Tier) -> Vec<Box<dyn Space>> {
             v.push(Box::new(unicode_family()));
             v.push(Box::new(relation_family()));
             v.push(Box::new(collision_family()));
+            v.push(Box::new(giant_family()));
         }
     }
     v
